@@ -74,7 +74,13 @@ Dying(t) == kst[t] \in {"zombie", "exited"}
 NotStopped(tasks) == {t \in ProbeTids(tasks) : tasks[ToString(t)] \notin {"t", "Z", "X"} /\ ~Dying(t)}
 LiveByProbe(tasks) == {t \in ProbeTids(tasks) : tasks[ToString(t)] \notin {"Z", "X"} /\ ~Dying(t)}
 \* kernel-model validation: a task the model holds stopped must show `t` (else the MODEL is wrong)
-ProbeDisagrees(tasks) == {t \in Tids : kst[t] = "stopped" /\ TaskState(tasks, t) # "t"}
+\* (exception: a child whose birth stop the tracer has not collected yet -- the model enters it into its event
+\* stop together with its creator's PTRACE_EVENT_CLONE, the kernel only when the child is first scheduled; until
+\* then it is runnable without having executed anything.  All other stops are inferred right before the wait
+\* that returns them.  Such a task still counts for not_all_stopped: a stop reported before the tracer has
+\* seen every thread stopped is what the property excludes.)
+ProbeDisagrees(tasks) == {t \in Tids : kst[t] = "stopped" /\ TaskState(tasks, t) # "t"
+                                       /\ ~(unrep[t] /\ kstop[t] = "event_stop")}
 ProbeChecks(act, tasks) ==
   (IF NotStopped(tasks) # {}
      THEN <<V("not_all_stopped", act, "every task in tracing stop",
